@@ -47,7 +47,9 @@
                                   boolean Coverage.c04_covered t (C04_roundtrip_covered_partial), so
                                   the remaining gap of C04 is explicit: parser outputs whose joined tree is not
                                   well-formed in the sense of Render.v -- Junk, a zero-line comment (D7), a lone
-                                  CR in text or in a comment, the leading spaces of D30.  (A blank line inside a
+                                  CR in text or in a comment, the leading spaces of D30 (a lone-CR case as well).
+                                  For ERROR-FREE sources without a lone CR the gap is closed but for D7:
+                                  C04_roundtrip_errorfree_crlf_partial below.  (A blank line inside a
                                   pattern with spaces beyond the common indentation was such a case until the
                                   repair of finding D33: C04_example_spaces_on_blank_line.)
                                   COVERED since Render.wf_value has the block-form rule (wf_pattern_lines_top): a
@@ -68,8 +70,10 @@
                                   comments are well-formed (ParserWf.lines_and_comments_ok, executable: Render's
                                   wf_pattern_lines_top on every pattern, wf_comment on every comment): the remaining
                                   gap of C04 for error-free inputs is exactly that
-   PROVED FOR EVERY PARSER OUTPUT OF A SOURCE WITHOUT CR (nocr bs: no byte 13; Syntax/ParserLines.v):
-     C04_parser_output_lines      the LINE half of the premise: every pattern of the tree (values of messages, terms,
+   PROVED FOR EVERY PARSER OUTPUT OF A SOURCE IN WHICH EVERY CR IS FOLLOWED BY LF (ParserLines.no_lone_cr bs, executable:
+   CR LF line ends are allowed, a lone CR is not; nocr bs, no byte 13 at all, is the special case and the theorems
+   without _crlf in their names are the corollaries for it; Syntax/ParserLines.v, Syntax/ParserWf.v):
+     C04_parser_output_lines_crlf, C04_parser_output_lines      the LINE half of the premise: every pattern of the tree (values of messages, terms,
                                   attributes and variants, at every depth), joined, satisfies Render.lines_ok_pattern,
                                   i.e. wf_pattern_lines_top: first line not blank, last line not blank and without
                                   trailing space, continuation lines not starting with . [ * and blank lines empty,
@@ -77,16 +81,23 @@
                                   invariant of the pattern loop (every placeholder described as a piece: at a line
                                   start or not, its indentation, its body, whether it ends the line; the common
                                   indent is the minimum of the counted indentations) and its finish (dedent, drop
-                                  of trailing blank elements, trim of the last element).
-     C04_roundtrip_errorfree_nocr_partial   THE ROUND TRIP AND THE FIXED POINT FOR EVERY ERROR-FREE PARSE OF A Rust str
-                                  WITHOUT CR, with ONE executable side condition on the tree: comments_nonempty t
-                                  (every comment has at least one line: exactly not the zero-line comment of
-                                  finding D7).  No premise about the shape, the content or the lines of the
-                                  patterns, or about the comment lines, is left (C04_parser_output_nocr: the texts
-                                  of the tree have no CR when the source has none; ParserWf.parse_comment_lines:
-                                  the comment lines have neither LF nor CR).  (Sources with CRLF
-                                  line ends are covered by C04_roundtrip_covered_partial through the executable
-                                  premise c04_covered only.)
+                                  of trailing blank elements, trim of the last element).  At a CR LF line end
+                                  the parser leaves the CR out and keeps the LF as an element of its own
+                                  (TextElementTermination::CRLF); the invariant follows it with a state "on the LF
+                                  of a CR LF whose line is still open".
+     C04_parser_output_nocr_crlf, C04_parser_output_nocr      no text element of the tree holds a CR (the CR of a CR LF
+                                  line end is left out, and there is no other CR)
+     C04_roundtrip_errorfree_crlf_partial, C04_roundtrip_errorfree_nocr_partial
+                                  THE ROUND TRIP AND THE FIXED POINT FOR EVERY ERROR-FREE PARSE OF A Rust str WITHOUT
+                                  A LONE CR (LF or CR LF line ends, mixed at will), with ONE executable side
+                                  condition on the tree: comments_nonempty t (every comment has at least one line:
+                                  exactly not the zero-line comment of finding D7).  No premise about the shape,
+                                  the content or the lines of the patterns, or about the comment lines, is left
+                                  (ParserWf.parse_comment_lines_crlf: the comment lines have neither LF nor CR).
+                                  NOT covered: a source with a CR that is not followed by LF (a lone CR is a legal
+                                  text character; Render.v, the grammar of this framework, leaves it out:
+                                  documented exclusion).  C04_example_errorfree_crlf_premises: a source with CR LF
+                                  line ends that satisfies the premises.
    PROVED FOR THE PARSE OF EVERY LAYOUT OF EVERY WELL-FORMED TREE but the shape of D7, both serializer options:
      C04_roundtrip_wellformed_sources_partial   for every tree tj with Render.wf_resource tj, WfUtf8.wf_utf8_resource tj
                                   and RoundTrip.last_comment_ok tj (finding D7: if the LAST entry is a stand-alone
@@ -462,8 +473,30 @@ Theorem C04_parser_output_nocr :
   forall bs t errs, nocr bs = true -> parse bs = Done (t, errs) -> nocr_resource t = true.
 Proof. exact parse_nocr. Qed.
 
-(* so: for every Rust str WITHOUT CR whose parse is error-free, the round trip and the fixed point hold, provided the
-   tree has no comment without a line (the zero-line comment of finding D7) *)
+(* the same three for sources with CR LF line ends: every CR is followed by LF (ParserLines.no_lone_cr, executable) *)
+Theorem C04_parser_output_lines_crlf :
+  forall bs t errs, no_lone_cr bs = true -> parse bs = Done (t, errs) -> Forall ln_entry t.
+Proof. exact parse_lines_crlf. Qed.
+
+Theorem C04_parser_output_nocr_crlf :
+  forall bs t errs, no_lone_cr bs = true -> parse bs = Done (t, errs) -> nocr_resource t = true.
+Proof. exact parse_nocr_crlf. Qed.
+
+Theorem C04_nocr_is_no_lone_cr : forall bs, nocr bs = true -> no_lone_cr bs = true.
+Proof. exact nocr_no_lone. Qed.
+
+(* so: for every Rust str WITHOUT A LONE CR (every CR is followed by LF) whose parse is error-free, the round trip and
+   the fixed point hold, provided the tree has no comment without a line (the zero-line comment of finding D7) *)
+Theorem C04_roundtrip_errorfree_crlf_partial :
+  forall bs t, utf8_valid bs = true -> no_lone_cr bs = true -> parse bs = Done (t, []) -> comments_nonempty t = true ->
+  forall with_junk s, serialize_with_options with_junk t = Done s ->
+  exists t2 errs2, parse s = Done (t2, errs2) /\ norm t2 = norm (drop_junk_unless with_junk t) /\ errs2 = [] /\
+                   serialize_with_options with_junk t2 = Done s.
+Proof.
+  intros bs t Hb Hn Hp Hc. apply (C04_roundtrip_str_inputs_partial bs t [] Hb Hp). apply (parse_wf_errorfree_crlf bs t Hp Hn Hc).
+Qed.
+
+(* the special case of a Rust str WITHOUT CR *)
 Theorem C04_roundtrip_errorfree_nocr_partial :
   forall bs t, utf8_valid bs = true -> nocr bs = true -> parse bs = Done (t, []) -> comments_nonempty t = true ->
   forall with_junk s, serialize_with_options with_junk t = Done s ->
@@ -738,6 +771,21 @@ Example C04_example_errorfree_premises :
   let src := b "# c" ++ LF ++ b "a = x { $n ->" ++ LF ++ b "   [one] first" ++ LF ++ b "      second" ++ LF ++ b "  *[other]" ++ LF ++
              b "      {$n}" ++ LF ++ b "       y" ++ LF ++ b " } z" ++ LF ++ b "  .t =" ++ LF ++ b "      two" ++ LF ++ b "    zero" ++ LF in
   exists t, parse src = Done (t, []) /\ utf8_valid src = true /\ nocr src = true /\ comments_nonempty t = true.
+Proof. eexists. conj_compute. Qed.
+
+(* non-vacuity of C04_roundtrip_errorfree_crlf_partial: CR LF line ends after a text, after a placeable, on a blank
+   line, on a line of spaces, in a comment and inside a select expression; what the serializer writes has LF only (the
+   LF of a CR LF line end is a text element of its own, and the serializer indents after it: spaces on the blank lines) *)
+Example C04_example_errorfree_crlf_premises :
+  let CRLF := [13; 10]%N in
+  let src := b "# c" ++ CRLF ++ b "a = x" ++ CRLF ++ b "  {$n}" ++ CRLF ++ CRLF ++ b "   " ++ CRLF ++ b "    y {$m}  " ++ CRLF ++ b "  z" ++ CRLF ++
+             b "b = { $n ->" ++ CRLF ++ b "   [one] first" ++ CRLF ++ b "      second" ++ CRLF ++ b "  *[other]" ++ CRLF ++
+             b "      {$n}" ++ CRLF ++ b " }" ++ CRLF in
+  exists t, parse src = Done (t, []) /\ utf8_valid src = true /\ no_lone_cr src = true /\ nocr src = false /\ comments_nonempty t = true /\
+            serialize_with_options true t =
+            Done (b "# c" ++ LF ++ b "a =" ++ LF ++ b "    x" ++ LF ++ b "    { $n }" ++ LF ++ b "    " ++ LF ++ b "    " ++ LF ++ b "      y { $m }  " ++ LF ++ b "    z" ++ LF ++
+                  b "b =" ++ LF ++ b "    { $n ->" ++ LF ++ b "        [one]" ++ LF ++ b "            first" ++ LF ++ b "            second" ++ LF ++
+                  b "       *[other] { $n }" ++ LF ++ b "    }" ++ LF).
 Proof. eexists. conj_compute. Qed.
 
 Example C04_example_first_line_indented :
